@@ -32,6 +32,13 @@ THEOREMS = [
     'Nb.C18.runs_maximal',
     'Nb.C18.to_mapping_spec',
     'Nb.C18.bm_mapping_roundtrip',
+    # phase-3 extension: the other axes' to_mapping / from_index_mapping, label colours through the XML text
+    'Nb.C18.series_mapping_roundtrip',
+    'Nb.C18.scalar_mapping_roundtrip',
+    'Nb.C18.label_mapping_roundtrip',
+    'Nb.C18.label_xml_roundtrip',
+    'Nb.C18.label_colour_xml',
+    'Nb.C18.parcels_mapping_roundtrip',
 ]
 ASSUMPTIONS = [
     'hand-written Lean model of nibabel/cifti2/cifti2_axes.py (Model/C18.lean): SeriesAxis slicing/int '
@@ -197,6 +204,7 @@ _R_LABEL = _rev(LABEL, _canon_label)
 _R_VOX = _rev(VOXSET, _canon_vox)
 _R_VERT = _rev(VERTDICT, _canon_vert)
 _R_STRUCT = {s: i for i, s in enumerate(STRUCTS)}
+_R_LABNAME = {LABNAME(i): i for i in range(2 * len(LABNAMES))}
 _R_AFF = {tuple(AFFINE(i).ravel()): i for i in range(12)}
 RICH_AFFINES = list(range(12, 24))
 VOX_IDS = VERT_IDS = list(range(NID))
@@ -226,6 +234,9 @@ def build_axis(d):
         return ax.ScalarAxis([NAME(i) for i in d['name']], [META(i) for i in d['meta']])
     if k == 'la':
         return ax.LabelAxis([NAME(i) for i in d['name']], [LABEL(i) for i in d['label']],
+                            [META(i) for i in d['meta']])
+    if k == 'lar':
+        return ax.LabelAxis([NAME(i) for i in d['name']], [RICHTABLE(tb) for tb in d['tables']],
                             [META(i) for i in d['meta']])
     if k == 'pa':
         vox = [VOXSET(i) for i in d['voxels']]
@@ -353,6 +364,27 @@ def fmt_axis(d):
     raise ValueError(k)
 
 
+def fmt_tables(tables):
+    return '|'.join(';'.join('%d/%d/%s' % (k, nm, '.'.join(str(col_bits(COL(c))) for c in cols))
+                             for k, nm, cols in tb) for tb in tables) or '-'
+
+
+def fmt_par(d):
+    """the explicit (rich) form of an id-described parcels axis for the `par … xrt` driver op"""
+    vox = '|'.join(';'.join('.'.join(str(int(x)) for x in row) for row in VOXSET(i)) or '_' for i in d['voxels']) or '-'
+    vert = '|'.join(';'.join('%d:%s' % (_R_STRUCT[k_], '.'.join(str(int(x)) for x in v))
+                             for k_, v in VERTDICT(i).items()) or '_' for i in d['vertices']) or '-'
+    vol = '%s %s %s' % (','.join('%d:%d' % (a, b) for a, b in d['nv']) or '-', _o(d['aff']),
+                        '_' if d['shp'] is None else '.'.join(map(str, d['shp'])))
+    return 'par %s %s %s %s' % (_l(d['name']), vox, vert, vol)
+
+
+def fmt_hdr_axis(a):
+    if a[0] == 'S':
+        return 'S%d.%d.%d.%d' % tuple(a[1:])
+    return 'C%s/%s' % (_l(a[1]), _l(a[2]))
+
+
 def axis_fields(d):
     return fmt_axis(d).split(' ', 1)[1]
 
@@ -361,13 +393,19 @@ def has_line(d):
     """float series and round-trip streams are oracle-only"""
     if d.get('kind') == 'ser' and not all(isinstance(d[k], int) for k in ('start', 'step')):
         return False
-    return d.get('op') in ('idx', 'add', 'runs', 'rt', 'name')   # xml/file/file2/eq are oracle-only
+    return d.get('op') in ('idx', 'add', 'runs', 'rt', 'name', 'map', 'xrt', 'hdr')   # xml/file/file2/eq are oracle-only
 
 
 def mk_case(d, stream):
     op = d['op']
     line = None
-    if has_line(d):
+    if op == 'hdr':
+        line = 'C18 hdr ' + '|'.join(fmt_hdr_axis(a) for a in d['axes'])
+    elif op == 'xrt' and d['kind'] == 'lar':
+        line = 'C18 lar %s %s %s xrt' % (_l(d['name']), _l(d['meta']), fmt_tables(d['tables']))
+    elif op == 'xrt' and d['kind'] == 'pa':
+        line = 'C18 ' + fmt_par(d) + ' xrt'
+    elif has_line(d):
         line = 'C18 ' + fmt_axis(d)
         if op == 'idx':
             line += ' idx ' + fmt_index(d['idx'])
@@ -405,6 +443,8 @@ def impl(case):
         a, b = build_rich_axis(d['a']), build_rich_axis(d['b'])
         ex['a'], ex['b'] = a, b
         return 'eq %s %s' % (bool(a == b), bool(b == a))
+    if op == 'hdr':
+        return impl_hdr(case)
     kind = d['kind']
     try:
         axis = build_axis(d)
@@ -440,6 +480,19 @@ def impl(case):
             return ','.join('%s:%d:%d:%d' % (rid(_R_STRUCT, str(n)), s.start,
                                              len(axis) if s.stop is None else s.stop, len(b))
                             for n, s, b in rs) or '-'
+        if op == 'map':            # SeriesAxis: to_mapping / from_index_mapping without the XML text
+            m = axis.to_mapping(0)
+            r = A().SeriesAxis.from_index_mapping(m)
+            ex['res'] = r
+            return canon_axis('ser', r) + ' exp=%d' % m.series_exponent
+        if op == 'xrt':            # one axis: header -> XML text -> parser -> header.get_axis(0)
+            r = xml_roundtrip([axis])[0]
+            ex['res'] = r
+            if kind == 'lar':
+                return canon_labelr(r)
+            if kind == 'pa':
+                return canon_parcelsr(r)
+            return canon_axis(kind, r)
         if op == 'rt':
             m = axis.to_mapping(0)
             ex['mim'] = m
@@ -459,6 +512,68 @@ def impl(case):
         ex['error'] = e
         return _err(e)
     raise ValueError(op)
+
+
+def xml_roundtrip(axes):
+    from nibabel.cifti2 import cifti2
+    from nibabel.cifti2.parse_cifti2 import Cifti2Parser
+    xml = cifti2.Cifti2Header.from_axes(axes).to_xml()
+    p = Cifti2Parser()
+    p.parse(string=xml)
+    return [p.header.get_axis(i) for i in range(len(axes))]
+
+
+def canon_labelr(axis):
+    """label axis with explicit tables: entries in dict order, colours as binary64 bit patterns"""
+    els = []
+    for i in range(len(axis)):
+        nm, tab, meta = axis.get_element(i)
+        ents = ','.join('%d/%s/%s' % (int(k), rid(_R_LABNAME, str(v[0])), '.'.join(str(col_bits(c)) for c in v[1]))
+                        for k, v in tab.items())
+        els.append('%s:%s:[%s]' % (rid(_R_NAME, str(nm)), rid(_R_META, _canon_meta(meta)), ents))
+    return 'ax %d %s' % (len(axis), ';'.join(els) or '-')
+
+
+def canon_parcelsr(axis):
+    """parcels axis in explicit form: voxel rows, vertex dicts and nvertices in dict order"""
+    els = []
+    for i in range(len(axis)):
+        nm, vox, vert = axis.get_element(i)
+        v = ';'.join('.'.join(str(int(x)) for x in row) for row in np.asarray(vox).reshape(-1, 3)) or '-'
+        w = ';'.join('%s:%s' % (rid(_R_STRUCT, str(k)), '.'.join(str(int(x)) for x in np.asarray(a).ravel()) or '-')
+                     for k, a in vert.items()) or '-'
+        els.append('%s/%s/%s' % (rid(_R_NAME, str(nm)), v, w))
+    nv = ','.join('%s:%d' % (rid(_R_STRUCT, k), v) for k, v in axis.nvertices.items()) or '-'
+    aff = '_' if axis.affine is None else rid(_R_AFF, tuple(np.asarray(axis.affine, dtype=float).ravel()))
+    shp = '_' if axis.volume_shape is None else '.'.join(str(int(x)) for x in axis.volume_shape)
+    return 'ax %d %s nv=%s aff=%s shp=%s' % (len(axis), '|'.join(els) or '-', nv, aff, shp)
+
+
+def build_hdr_axis(a):
+    ax = A()
+    if a[0] == 'S':
+        return ax.SeriesAxis(a[1], a[2], a[3], UNITS[a[4]])
+    return ax.ScalarAxis([NAME(i) for i in a[1]], [META(i) for i in a[2]])
+
+
+def impl_hdr(case):
+    """`to_header` alone (no XML): which map describes which dimensions, and what axis each map gives back"""
+    ax = A()
+    d, ex = case.data, case.extra
+    axes = [build_hdr_axis(a) for a in d['axes']]
+    ex['axes'] = axes
+    hdr = ax.to_header(axes)
+    ex['hdr'] = hdr
+    parts = []
+    for mim in hdr.matrix:
+        r = ax.from_index_mapping(mim)
+        if isinstance(r, ax.SeriesAxis):
+            desc = 'S%d.%d.%d.%d' % (_exact_int(r.start), _exact_int(r.step), r.size, UNITS.index(r.unit))
+        else:
+            desc = 'C%s/%s' % (','.join(rid(_R_NAME, str(x)) for x in r.name) or '-',
+                               ','.join(rid(_R_META, _canon_meta(m)) for m in r.meta) or '-')
+        parts.append(','.join(str(int(x)) for x in mim.applies_to_matrix_dimension) + '=' + desc)
+    return '|'.join(parts) or '-'
 
 
 # ------------------------------------------------------------------ round trips (oracle-only streams)
@@ -777,6 +892,18 @@ def oracle(case, out):
             return (f'{axis_kind(ex["a"])}: (a == b, b == a) = {out[3:]} but the element descriptions are '
                     f'{"equal" if same else "different"} ({d["b"].get("p") or d["a"].get("p")})')
         return None
+    if op == 'hdr':
+        if 'hdr' not in ex:
+            return 'to_header raised: ' + out
+        axes, hdr = ex['axes'], ex['hdr']
+        dims = sorted(int(x) for mim in hdr.matrix for x in mim.applies_to_matrix_dimension)
+        if dims != list(range(len(axes))):
+            return f'to_header: dimensions mapped {dims}, want each of 0..{len(axes) - 1} exactly once'
+        for i, a in enumerate(axes):
+            b = hdr.get_axis(i)
+            if type(a) is not type(b) or describe(a) != describe(b) or not (a == b) or not (b == a):
+                return f'to_header: get_axis({i}) is not axes[{i}]'
+        return None
     kind = d['kind']
     if 'build_error' in ex:
         return None           # the constructor refused the description: nothing to index
@@ -785,6 +912,19 @@ def oracle(case, out):
     axis = ex['axis']
     if kind == 'ser' and not (isinstance(d['start'], int) and isinstance(d['step'], int)):
         return oracle_series_float(case, out)
+    if op in ('map', 'xrt'):
+        if out.startswith('ERR'):
+            if kind == 'pa' and any(k_ not in axis.nvertices for vd in axis.vertices for k_ in vd):
+                return None       # documented refusal: vertices on a structure without an nvertices entry
+            return f'{kind}: {op} round trip raised {out} on a valid axis'
+        res = ex['res']
+        if type(res) is not type(axis) or len(res) != len(axis):
+            return f'{kind}: {op} round trip changed the type or length of the axis'
+        if describe(res, False) != describe(axis, False):
+            return f'{kind}: {op} round trip changed the axis' + _first_diff(axis, res)
+        if not (res == axis) or not (axis == res):
+            return f'{kind}: axis after the {op} round trip != original (__eq__)'
+        return None
     try:
         els = elements(kind, axis)
     except Exception as e:
@@ -972,6 +1112,8 @@ def signature(case, what):
     op = d.get('op')
     if op == 'eq':
         return 'eq:' + str((d['b'].get('p') or d['a'].get('p') or ['copy'])[0])
+    if op == 'hdr':
+        return 'hdr'
     if op in ('xml', 'file', 'file2'):
         names = []
 
@@ -1008,7 +1150,11 @@ def signature(case, what):
 def shrink_candidates(case):
     d = case.data
     op = d.get('op')
-    if op == 'eq':
+    if op in ('eq', 'map', 'xrt'):
+        return
+    if op == 'hdr':
+        for i in range(len(d['axes'])):
+            yield mk_case(dict(d, axes=d['axes'][:i] + d['axes'][i + 1:]), case.stream)
         return
     if op in ('xml', 'file', 'file2'):
         if len(d['axes']) > 1 and op == 'xml':
@@ -1420,6 +1566,42 @@ def cases(rng, tier):
         d = rand_bm(rng, valid=rng.random() < 0.95)
         d.update(op=rng.choice(['runs', 'rt', 'rt']))
         out.append(mk_case(d, 'bm-' + d['op']))
+    # ---- to_mapping / XML text / from_index_mapping of ONE axis, model-compared (phase-3 extension)
+    for _ in range(100 * N):
+        d = rand_series(rng)
+        d.update(op='map')
+        out.append(mk_case(d, 'ser-map'))
+    for _ in range(100 * N):
+        d = rand_listaxis(rng, 'sc', rng.randrange(1, 7), XML_SAFE_NAMES)
+        d.update(op='xrt')
+        out.append(mk_case(d, 'sc-xrt'))
+    for _ in range(250 * N):
+        sp = rand_rich_label(rng, rng.randrange(1, 5))
+        d = {'kind': 'lar', 'name': sp['name'], 'meta': sp['meta'], 'tables': sp['tables'], 'op': 'xrt'}
+        out.append(mk_case(d, 'lar-xrt'))
+    for _ in range(250 * N):
+        d = rand_listaxis(rng, 'pa', rng.randrange(1, 7))
+        d['name'] = rand_ids(rng, len(d['name']), XML_SAFE_NAMES)
+        if rng.random() < 0.8:        # mostly readable: every structure used by a parcel has an nvertices entry
+            have = {k_ for k_, _ in d['nv']}
+            for s_ in sorted({_R_STRUCT[k_] for i in d['vertices'] for k_ in VERTDICT(i)} - have):
+                d['nv'].append([s_, [7, 5][s_]])
+        if rng.random() < 0.3:
+            d['nv'].append([rng.choice([2, 3, 4]), 11])      # a surface no parcel uses
+            rng.shuffle(d['nv'])
+        d.update(op='xrt')
+        out.append(mk_case(d, 'par-xrt'))
+    # ---- to_header alone: which dimensions share a map (series and scalar axes, many repeats)
+    for _ in range(250 * N):
+        pool = []
+        for _j in range(rng.choice([1, 2, 2, 3])):
+            if rng.random() < 0.5:
+                pool.append(['S', rng.randint(-3, 3), rng.choice([1, 2]), rng.randrange(1, 4), rng.randrange(2)])
+            else:
+                n = rng.randrange(1, 3)
+                pool.append(['C', rand_ids(rng, n, XML_SAFE_NAMES[:3]), rand_ids(rng, n, [0, 1])])
+        out.append(mk_case({'op': 'hdr', 'axes': [rng.choice(pool) for _ in range(rng.randrange(1, 6))],
+                            'stream': 'hdr'}, 'hdr'))
     # ---- XML / file round trips (oracle only)
     for _ in range({'quick': 1000, 'thorough': 12000, 'search': 1500}[tier]):
         k = rng.choice([1, 2, 2, 2, 3])
